@@ -47,67 +47,157 @@ theorem baseRecord_encode (r : Record) (last : Bool) (rest : List Nat) :
 
 theorem leBytes3_mfg : leBytes 3 picmgMfgId = [0x5A, 0x31, 0x00] := by decide
 
-theorem parseRecord_cons_ne (x : Nat) (t : List Nat) (h : x ≠ FruTables.picmgRecordType) :
-    parseRecord (x :: t) =
+/-- the constants of the repaired dispatch (from the source when it has them) are the storage
+definition's -/
+theorem gen_record_consts : picmgMfg = picmgMfgId ∧ dispMinData = 10 ∧ dispMinLen = 5 ∧
+    picmgMinLen = 5 ∧ powerMinLen = 7 := by decide
+
+/-- which records the variant can decode: as shipped (`picmgTypeOnly`) every C0h record is taken
+for a PICMG record, so an OEM C0h record of another manufacturer (or a short one) is not -/
+def Record.okFor (v : Variant) : Record → Bool
+  | .generic t _ => !(v.picmgTypeOnly && t == picmgRecordType)
+  | _ => true
+
+theorem Record.okFor_intended (r : Record) : r.okFor .intended = true := by
+  cases r <;> simp [Record.okFor, Variant.intended]
+
+theorem parseRecord_cons_ne (v : Variant) (x : Nat) (t : List Nat)
+    (h : ¬ (x = FruTables.picmgRecordType ∧ isPicmgRec v (x :: t) = true)) :
+    parseRecord v (x :: t) =
       (baseRecord (x :: t)).bind fun b => .ok (.unknown b.typeId b.version b.eol b.length b.raw) := by
   simp only [parseRecord, if_neg h]
 
-theorem parseRecord_cons_picmg (t : List Nat) (p : PicmgRec)
-    (hp : picmgRecord (FruTables.picmgRecordType :: t) = .ok p) :
-    parseRecord (FruTables.picmgRecordType :: t) =
+theorem parseRecord_cons_picmg (v : Variant) (t : List Nat) (p : PicmgRec)
+    (hi : isPicmgRec v (FruTables.picmgRecordType :: t) = true)
+    (hp : picmgRecord v (FruTables.picmgRecordType :: t) = .ok p) :
+    parseRecord v (FruTables.picmgRecordType :: t) =
       if p.picmgId = FruTables.powerModuleId then
         if (FruTables.picmgRecordType :: t).length < FruTables.minPower then .decodingError
+        else if (!v.picmgTypeOnly && decide (p.base.length < powerMinLen)) = true then .decodingError
         else .ok (.power p.base.typeId p.base.eol p.base.length p.base.raw p.mfgId p.picmgId p.version
                 ((FruTables.picmgRecordType :: t).getD 10 0 + (FruTables.picmgRecordType :: t).getD 11 0 * 256))
       else .ok (.picmg p.base.typeId p.base.eol p.base.length p.base.raw p.mfgId p.picmgId p.version) := by
-  simp only [parseRecord, if_true, hp, Outcome.bind_ok]
+  simp only [parseRecord, hi, and_self, if_true, hp, Outcome.bind_ok]
 
 /-- byte `5 + i` of an encoded record is byte `i` of its data -/
 theorem encodeRecord_getD (r : Record) (last : Bool) (rest : List Nat) (i : Nat) :
     (encodeRecord r last ++ rest).getD (i + 5) 0 = (r.data ++ rest).getD i 0 := by
   rw [encodeRecord_shape]; rfl
 
-theorem picmgRecord_encode (r : Record) (last : Bool) (rest : List Nat) (pid ver : Nat) (tail : List Nat)
-    (hd : r.data = leBytes 3 picmgMfgId ++ [pid, ver] ++ tail) :
-    picmgRecord (encodeRecord r last ++ rest) =
+theorem mfgOf_encode (r : Record) (last : Bool) (rest : List Nat) :
+    mfgOf (encodeRecord r last ++ rest) =
+      (r.data ++ rest).getD 0 0 + (r.data ++ rest).getD 1 0 * 256 + (r.data ++ rest).getD 2 0 * 65536 := by
+  have g5 := encodeRecord_getD r last rest 0
+  have g6 := encodeRecord_getD r last rest 1
+  have g7 := encodeRecord_getD r last rest 2
+  simp only [Nat.zero_add, Nat.reduceAdd] at g5 g6 g7
+  simp only [mfgOf, g5, g6, g7]
+
+theorem encodeRecord_getD2 (r : Record) (last : Bool) (rest : List Nat) :
+    (encodeRecord r last ++ rest).getD 2 0 = r.data.length := by
+  rw [encodeRecord_shape]; rfl
+
+theorem picmgRecord_encode (v : Variant) (r : Record) (last : Bool) (rest : List Nat) (pid ver : Nat)
+    (tail : List Nat) (hd : r.data = leBytes 3 picmgMfgId ++ [pid, ver] ++ tail) :
+    picmgRecord v (encodeRecord r last ++ rest) =
       .ok ⟨⟨r.typeId, 2, last, r.data.length, r.data⟩, picmgMfgId, pid, ver⟩ := by
   have hlen : ¬ (encodeRecord r last ++ rest).length < FruTables.minPicmg := by
     rw [record_consts.2.1]
     simp [encodeRecord_length, hd]; omega
-  have g5 := encodeRecord_getD r last rest 0
-  have g6 := encodeRecord_getD r last rest 1
-  have g7 := encodeRecord_getD r last rest 2
   have g8 := encodeRecord_getD r last rest 3
   have g9 := encodeRecord_getD r last rest 4
-  simp only [Nat.zero_add, Nat.reduceAdd] at g5 g6 g7 g8 g9
-  simp only [picmgRecord, if_neg hlen, baseRecord_encode, Outcome.bind_ok, g5, g6, g7, g8, g9]
+  simp only [Nat.reduceAdd] at g8 g9
+  have hg : (!v.picmgTypeOnly && decide (r.data.length < picmgMinLen)) = false := by
+    have : ¬ r.data.length < picmgMinLen := by
+      rw [gen_record_consts.2.2.2.1, hd]; simp; omega
+    simp [this]
+  simp only [picmgRecord, if_neg hlen, baseRecord_encode, Outcome.bind_ok, hg, mfgOf_encode, g8, g9]
   rw [hd, leBytes3_mfg]
   simp [picmgMfgId]
 
-theorem parseRecord_encode (r : Record) (last : Bool) (rest : List Nat) (hwf : r.wf = true) :
-    parseRecord (encodeRecord r last ++ rest) = .ok (viewRecord r last) := by
+/-- a record whose data carry the PICMG signature passes the test of `create_from_record_id` -/
+theorem isPicmgRec_encode (v : Variant) (r : Record) (last : Bool) (rest : List Nat) (pid ver : Nat)
+    (tail : List Nat) (hd : r.data = leBytes 3 picmgMfgId ++ [pid, ver] ++ tail) :
+    isPicmgRec v (encodeRecord r last ++ rest) = true := by
+  have h1 : dispMinData ≤ (encodeRecord r last ++ rest).length := by
+    rw [gen_record_consts.2.1]; simp [encodeRecord_length, hd]; omega
+  have h2 : dispMinLen ≤ (encodeRecord r last ++ rest).getD 2 0 := by
+    rw [gen_record_consts.2.2.1, encodeRecord_getD2, hd]; simp; omega
+  have h3 : mfgOf (encodeRecord r last ++ rest) = picmgMfg := by
+    rw [mfgOf_encode, gen_record_consts.1, hd, leBytes3_mfg]; simp [picmgMfgId]
+  simp only [isPicmgRec, decide_eq_true h1, decide_eq_true h2, h3, beq_self_eq_true, Bool.and_self, Bool.or_true]
+
+/-- an OEM C0h record without the PICMG signature does not pass the repaired test -/
+theorem isPicmgRec_generic (v : Variant) (hv : v.picmgTypeOnly = false) (t : Nat) (d : List Nat)
+    (last : Bool) (rest : List Nat) (hb : Bytes d) (hn : isPicmgData d = false) :
+    isPicmgRec v (encodeRecord (.generic t d) last ++ rest) = false := by
+  have h2 := encodeRecord_getD2 (.generic t d) last rest
+  have h3 := mfgOf_encode (.generic t d) last rest
+  simp only [Record.data] at h2 h3
+  simp only [isPicmgRec, hv, Bool.false_or, h2, h3, gen_record_consts.1, gen_record_consts.2.2.1]
+  by_cases h5 : 5 ≤ d.length
+  · have hne : d.take 3 ≠ leBytes 3 picmgMfgId := by
+      intro he
+      simp [isPicmgData, h5, he] at hn
+    match d, h5, hb, hne with
+    | a :: b :: c :: _ :: _ :: tl, _, hb, hne =>
+      have ha : a < 256 := hb a (by simp)
+      have hbb : b < 256 := hb b (by simp)
+      have hc : c < 256 := hb c (by simp)
+      rw [leBytes3_mfg] at hne
+      have hval : ¬ (a + b * 256 + c * 65536 = picmgMfgId) := by
+        intro he
+        apply hne
+        simp only [picmgMfgId] at he
+        have : a = 0x5A ∧ b = 0x31 ∧ c = 0 := by omega
+        obtain ⟨rfl, rfl, rfl⟩ := this
+        rfl
+      simp [hval]
+  · have : ¬ 5 ≤ d.length := h5
+    simp [this]
+
+theorem parseRecord_encode (v : Variant) (r : Record) (last : Bool) (rest : List Nat) (hwf : r.wf = true)
+    (hok : r.okFor v = true) :
+    parseRecord v (encodeRecord r last ++ rest) = .ok (viewRecord r last) := by
   have hbase := baseRecord_encode r last rest
   obtain ⟨tl, hd⟩ : ∃ tl, encodeRecord r last ++ rest = r.typeId :: tl := ⟨_, encodeRecord_shape r last rest⟩
   cases r with
   | generic t d =>
     simp only [Record.wf, Bool.and_eq_true, decide_eq_true_eq] at hwf
-    have hne : t ≠ FruTables.picmgRecordType := by rw [record_consts.2.2.2.1]; exact hwf.1.1.2
+    have hne : ¬ (t = FruTables.picmgRecordType ∧ isPicmgRec v (t :: tl) = true) := by
+      rintro ⟨ht, hi⟩
+      rw [record_consts.2.2.2.1] at ht
+      have hv : v.picmgTypeOnly = false := by
+        simpa [Record.okFor, ht] using hok
+      have hnp : isPicmgData d = false := by
+        have := hwf.1.1.2
+        simpa [ht] using this
+      simp only [Record.typeId] at hd
+      rw [← hd, isPicmgRec_generic v hv t d last rest ((isBytes_iff _).mp hwf.1.2) hnp] at hi
+      cases hi
     simp only [Record.typeId] at hd
     rw [hd] at hbase ⊢
-    rw [parseRecord_cons_ne t tl hne, hbase]
+    rw [parseRecord_cons_ne v t tl hne, hbase]
     simp [viewRecord, Record.data, Record.typeId]
   | picmg pid ver payload =>
     simp only [Record.wf, Bool.and_eq_true, decide_eq_true_eq] at hwf
     have hne : pid ≠ FruTables.powerModuleId := by rw [record_consts.2.2.2.2.1]; exact hwf.1.1.1.2
-    have hp := picmgRecord_encode (.picmg pid ver payload) last rest pid ver payload rfl
+    have hp := picmgRecord_encode v (.picmg pid ver payload) last rest pid ver payload rfl
+    have hi := isPicmgRec_encode v (.picmg pid ver payload) last rest pid ver payload rfl
     simp only [Record.typeId, ← record_consts.2.2.2.1] at hd hp
-    rw [hd] at hp ⊢
-    rw [parseRecord_cons_picmg tl _ hp]
+    rw [hd] at hp hi ⊢
+    rw [parseRecord_cons_picmg v tl _ hi hp]
     simp only [if_neg hne, viewRecord, record_consts.2.2.2.1]
   | power ver tenths extra =>
     simp only [Record.wf, Bool.and_eq_true, decide_eq_true_eq] at hwf
-    have hp := picmgRecord_encode (.power ver tenths extra) last rest powerModuleId ver
+    have hp := picmgRecord_encode v (.power ver tenths extra) last rest powerModuleId ver
       (leBytes 2 tenths ++ extra) (by simp [Record.data])
+    have hi := isPicmgRec_encode v (.power ver tenths extra) last rest powerModuleId ver
+      (leBytes 2 tenths ++ extra) (by simp [Record.data])
+    have hg : (!v.picmgTypeOnly && decide ((Record.power ver tenths extra).data.length < powerMinLen)) = false := by
+      have : ¬ (Record.power ver tenths extra).data.length < powerMinLen := by
+        rw [gen_record_consts.2.2.2.2]; simp [Record.data]; omega
+      simp [this]
     have hlen : ¬ (encodeRecord (.power ver tenths extra) last ++ rest).length < FruTables.minPower := by
       rw [record_consts.2.2.1]
       simp [encodeRecord_length, Record.data, leBytes]; omega
@@ -121,11 +211,11 @@ theorem parseRecord_encode (r : Record) (last : Bool) (rest : List Nat) (hwf : r
       have := hwf.1.1.2
       omega
     simp only [Record.typeId, ← record_consts.2.2.2.1] at hd hp
-    rw [hd] at hp hlen hcur ⊢
-    rw [parseRecord_cons_picmg tl _ hp]
+    rw [hd] at hp hi hlen hcur ⊢
+    rw [parseRecord_cons_picmg v tl _ hi hp]
     simp only [record_consts.2.2.2.2.1, if_true]
     rw [if_neg hlen, hcur]
-    simp only [viewRecord, record_consts.2.2.2.1]
+    simp only [hg, Bool.false_eq_true, if_false, viewRecord, record_consts.2.2.2.1]
 
 theorem viewRecord_eol (r : Record) (last : Bool) : (viewRecord r last).eol = last := by
   cases r <;> rfl
@@ -133,9 +223,10 @@ theorem viewRecord_eol (r : Record) (last : Bool) : (viewRecord r last).eol = la
 theorem viewRecord_length (r : Record) (last : Bool) : (viewRecord r last).length = r.data.length := by
   cases r <;> simp [viewRecord, RecView.length, Record.data]
 
-theorem multiLoop_encode (rs : List Record) (rest : List Nat) (fuel : Nat)
-    (hne : rs ≠ []) (hfuel : rs.length ≤ fuel) (hwf : ∀ r ∈ rs, r.wf = true) :
-    multiLoop fuel (encodeRecords rs ++ rest) = .ok (viewRecords rs) := by
+theorem multiLoop_encode (v : Variant) (rs : List Record) (rest : List Nat) (fuel : Nat)
+    (hne : rs ≠ []) (hfuel : rs.length ≤ fuel) (hwf : ∀ r ∈ rs, r.wf = true)
+    (hok : ∀ r ∈ rs, r.okFor v = true) :
+    multiLoop v fuel (encodeRecords rs ++ rest) = .ok (viewRecords rs) := by
   induction rs generalizing fuel with
   | nil => exact absurd rfl hne
   | cons r rs ih =>
@@ -144,12 +235,13 @@ theorem multiLoop_encode (rs : List Record) (rest : List Nat) (fuel : Nat)
     | succ n =>
       cases rs with
       | nil =>
-        simp only [encodeRecords, multiLoop, parseRecord_encode r true rest (hwf r (by simp)),
+        simp only [encodeRecords, multiLoop, parseRecord_encode v r true rest (hwf r (by simp)) (hok r (by simp)),
           Outcome.bind_ok, viewRecord_eol, if_true, viewRecords]
       | cons r' rs' =>
         have h2 := ih n (by simp) (by simp at hfuel ⊢; omega) (fun x hx => hwf x (by simp [hx]))
+          (fun x hx => hok x (by simp [hx]))
         simp only [encodeRecords, multiLoop, List.append_assoc,
-          parseRecord_encode r false _ (hwf r (by simp)), Outcome.bind_ok, viewRecord_eol,
+          parseRecord_encode v r false _ (hwf r (by simp)) (hok r (by simp)), Outcome.bind_ok, viewRecord_eol,
           viewRecord_length, viewRecords]
         rw [← encodeRecord_length r false, List.drop_left']
         · simp [h2]
@@ -171,11 +263,11 @@ theorem encodeRecords_ne_nil (rs : List Record) (h : rs ≠ []) : encodeRecords 
   | nil => exact h rfl
   | cons _ _ => simp at this
 
-theorem parseMulti_encode (rs : List Record) (rest : List Nat) (hne : rs ≠ [])
-    (hwf : ∀ r ∈ rs, r.wf = true) :
-    parseMulti (encodeRecords rs ++ rest) = .ok (.parsed (viewRecords rs)) := by
-  have h := multiLoop_encode rs rest (encodeRecords rs ++ rest).length hne
-    (by have := encodeRecords_length_ge rs; simp; omega) hwf
+theorem parseMulti_encode (v : Variant) (rs : List Record) (rest : List Nat) (hne : rs ≠ [])
+    (hwf : ∀ r ∈ rs, r.wf = true) (hok : ∀ r ∈ rs, r.okFor v = true) :
+    parseMulti v (encodeRecords rs ++ rest) = .ok (.parsed (viewRecords rs)) := by
+  have h := multiLoop_encode v rs rest (encodeRecords rs ++ rest).length hne
+    (by have := encodeRecords_length_ge rs; simp; omega) hwf hok
   have hnn : encodeRecords rs ++ rest ≠ [] := by
     intro he
     exact encodeRecords_ne_nil rs hne (List.append_eq_nil_iff.mp he).1
